@@ -107,15 +107,18 @@ def index_of(prop):
 _W = ["wrapperCall", "wrapperDunder"]
 _G = ["execAll", "execAsyncAll"]
 _A = ["execCall", "execAsyncCall"]
+_E = ["eventCall", "smSend"]
 SRC_TIE = {
+    "C07": ["eventCall", "reservedNames", "injectedNames"],
+    "C13": _E,
     "C01": ["triggerSync", "triggerAsync"] + _W + _G,
     "C02": ["activateSync", "activateAsync"] + _W + _A,
-    "C03": ["processSync", "processAsync"],
+    "C03": ["processSync", "processAsync"] + _E,
     "C04": ["activateSync", "activateAsync", "processSync", "processAsync"] + _A,
     "C06": ["processSync", "processAsync"],
     "C05": ["activateSync", "activateAsync", "triggerSync", "triggerAsync", "processSync", "processAsync"] + _W + _G + _A,
     "C08": _W + _G,
-    "C11": ["triggerSync", "triggerAsync"],
+    "C11": ["triggerSync", "triggerAsync", "engineStart"],
     "C14": ["activateSync", "activateAsync"] + _W + _A,
 }
 TIE_MOD = "SMV.Src.Tie"
